@@ -201,6 +201,29 @@ PROBE_CMD(rst_read) {
                         out.end_arr();
                         out.kv_s("error", e.what());
                     }
+                    // the same array through (name, step, occurrence): occurrence = number of earlier arrays of the step
+                    // with this name; must be the very same data as through the index
+                    int occ = 0;
+                    for (std::size_t j = 0; j < i; ++j) if (std::get<0>(arrays[j]) == name) ++occ;
+                    try {
+                        bool same = true;
+                        switch (type) {
+                        case E::INTE: same = rst.getRestartData<int>(name, s, occ) == rst.getRestartData<int>((int)i, s); break;
+                        case E::REAL: {
+                            const auto& a = rst.getRestartData<float>(name, s, occ); const auto& b = rst.getRestartData<float>((int)i, s);
+                            same = a.size() == b.size() && std::memcmp(a.data(), b.data(), a.size() * sizeof(float)) == 0; break; }
+                        case E::DOUB: {
+                            const auto& a = rst.getRestartData<double>(name, s, occ); const auto& b = rst.getRestartData<double>((int)i, s);
+                            same = a.size() == b.size() && std::memcmp(a.data(), b.data(), a.size() * sizeof(double)) == 0; break; }
+                        case E::LOGI: same = rst.getRestartData<bool>(name, s, occ) == rst.getRestartData<bool>((int)i, s); break;
+                        case E::CHAR: same = rst.getRestartData<std::string>(name, s, occ) == rst.getRestartData<std::string>((int)i, s); break;
+                        case E::C0NN: break;   // (the by-name getter accepts CHAR only; C0nn arrays are read through the index)
+                        case E::MESS: break;
+                        }
+                        out.kv_i("occurrence", occ).kv_b("by_occurrence_same", same);
+                    } catch (const std::exception& e) {
+                        out.kv_i("occurrence", occ).kv_s("by_occurrence_error", e.what());
+                    }
                 }
                 out.end_obj();
             }
